@@ -8,6 +8,9 @@ from dataclasses import dataclass, field
 from typing import Callable, Dict, Iterable, Iterator, List, Optional, Sequence, Tuple
 
 
+from .normal import normalise  # noqa: E402
+
+
 class AnalysisError(Exception):
     """The analyser cannot decide (vanished anchor, unmodelled idiom).
 
@@ -88,7 +91,7 @@ class Repo:
                             continue
                         with open(path, "r", encoding="utf-8") as fh:
                             src = fh.read()
-                    tree = ast.parse(src, filename=path)
+                    tree = normalise(ast.parse(src, filename=path))
                 except (SyntaxError, UnicodeDecodeError, OSError) as exc:
                     self.parse_failures.append(f"{rel}: {exc}")
                     continue
